@@ -120,7 +120,7 @@ func (d *RosterDriver) Step(x *Exec, n *Node, i int) StepResult {
 	h := w.Contracts["container"].Hash
 	where := map[string]any{"op": o.kind, "vector": o.v, "batch": o.batch}
 	viol := func(class, msg string) StepResult {
-		return StepResult{V: Viol(class, msg, where), Outcome: "VIOLATION"}
+		return StepResult{V: Viol(class, msg, where), Outcome: "violation"}
 	}
 	signers := []util.Uint160{w.Alpha}
 	if o.signer == "S" {
